@@ -7,12 +7,12 @@ cmd=$1; shift
 mk() { ( flock 9; rm -rf "$1"; git -C /repo worktree prune; git -C /repo worktree add -q --detach "$1" HEAD ) 9>/tmp/mut/.lock; }
 rmwt() { ( flock 9; git -C /repo worktree remove --force "$1" 2>/dev/null; rm -rf "$1" ) 9>/tmp/mut/.lock; }
 if [ "$cmd" = verify ]; then
-  P=$1; X=$2; D=/tmp/mut/out_$P/$X; W=/tmp/mut/wt_v_${P}_$X
+  P=$1; X=$2; R=${MUTROOT:-/tmp/mut}; D=$R/out_$P/$X; W=/tmp/mut/wt_v_${P}_$X
   mk $W
   cp $D/demo.py $W/demo.py
-  (cd $W && /venv/bin/python -W ignore demo.py >/tmp/mut/out_$P/$X/clean.log 2>&1); c=$?
+  (cd $W && /venv/bin/python -W ignore demo.py >$D/clean.log 2>&1); c=$?
   git -C $W apply $D/patch.diff || { echo "$P $X: PATCH DOES NOT APPLY"; rmwt $W; exit 1; }
-  (cd $W && /venv/bin/python -W ignore demo.py >/tmp/mut/out_$P/$X/mut.log 2>&1); m=$?
+  (cd $W && /venv/bin/python -W ignore demo.py >$D/mut.log 2>&1); m=$?
   rm -f $W/demo.py
   t=$(python3 /verif/tools/baseline_check.py $W 2>&1 | head -1)
   echo "$P $X: demo clean rc=$c mutant rc=$m | $t"
